@@ -61,6 +61,9 @@ structure Facts where
   -- C08: writes to / addresses taken of fields reached from a shared descriptor on the hot paths
   descriptorWriteSites : Nat
   descriptorWriteSiteList : List String
+  -- C08 / C07: every store into package-level state of internal/reflect and internal/defs outside init
+  -- ("pkg/file:func writes var"), to be compared with the list of the tree the model was written from
+  sharedWriteSiteList : List String
   -- C16: stores of the encode / size functions that are not to the output buffer `b` or a local
   encodeForeignWriteSites : Nat
   encodeForeignWriteSiteList : List String
